@@ -12,6 +12,7 @@ import (
 	"net"
 	"strings"
 	"sync"
+	"sync/atomic"
 	"time"
 
 	"verifharness/ref/resp"
@@ -115,6 +116,8 @@ type Server struct {
 	ScriptLog [][]byte
 	// GenericWrites: business commands (first argument not a bookkeeping key) are logged and answered +OK without interpretation.
 	GenericWrites bool
+	// SeqSource, when set, provides request sequence numbers shared by several servers (a cluster): one global order.
+	SeqSource *atomic.Int64
 	// InfoHook, when set, answers INFO <section> (section lower case, "" = all); nil result falls through to the built-in reply.
 	InfoHook       func(section string) []byte
 	LuaUnsupported int
@@ -346,7 +349,11 @@ func (s *Server) serve(cs *connState) {
 
 // handle processes one request under the lock.
 func (s *Server) handle(cs *connState, name string, args [][]byte) resp.Reply {
-	s.seq++
+	if s.SeqSource != nil {
+		s.seq = int(s.SeqSource.Add(1))
+	} else {
+		s.seq++
+	}
 	req := Request{Seq: s.seq, Conn: cs.id, Cmd: name, Args: args, ArgsS: quoteArgs(args), T: time.Now().UnixNano()}
 	var reply resp.Reply
 	defer func() {
